@@ -324,7 +324,7 @@ Section WithCodec.
 
   (* the newline the reader works with: declared in the header, or guessed from the content *)
   Definition reader_newline (le_pv : option pv) (content : bytes) : res bytes :=
-    if pv_truthy le_pv
+    if pv_given le_pv
     then match le_pv with Some (VStr le) => get_newline_for_type le (Some enc) | _ => Err EValue end
     else do p <- guess_line_endings_bytes content (Some enc); Ok (snd p).
 
@@ -399,8 +399,7 @@ Section WithCodec.
     assoc_get beq le GenText.newline_formats = Some nl -> enc0 nl = Some nlb ->
     reader_newline (Some (VStr le)) content = Ok nlb.
   Proof.
-    intros le nl nlb content Hv Hassoc Hnl. unfold reader_newline. cbn [pv_truthy].
-    destruct (le_values_facts le Hv) as [_ [Hnle _]]. rewrite Hnle.
+    intros le nl nlb content Hv Hassoc Hnl. unfold reader_newline. cbn [pv_given].
     destruct (cl_nl _ _ _ _ laws le nl (assoc_get_In _ _ _ Hassoc)) as [nlb' [Hn1 [_ [_ [_ [_ [Hn6 _]]]]]]].
     rewrite Hnl in Hn1. injection Hn1 as <-.
     unfold get_newline_for_type. cbn [enc_or_ascii]. rewrite Hassoc, (py_encode_laws nl nlb Hnl). cbn [bind].
@@ -535,7 +534,7 @@ Proof.
   destruct (content_round_trip_gen enc c bom enc0 laws s e t b lev indent He Ht Hb Hle Hind)
     as [body [le [nl [nlb [b' [lines [H1 [H2 [H3 [H4 [H5 [H6 [H7 [H8 H9]]]]]]]]]]]]]].
   exists body, le, nl, nlb, b', lines. repeat (split; [assumption|]).
-  intros st rest [le' Hg]. apply H9. unfold reader_newline. cbn [pv_truthy]. rewrite Hg. reflexivity.
+  intros st rest [le' Hg]. apply H9. unfold reader_newline. cbn [pv_given]. rewrite Hg. reflexivity.
 Qed.
 
 (* ------------------------------------------------------------------------------------------------ *)
@@ -651,7 +650,7 @@ Proof.
     destruct (sread_exact (st_stream st) body rest Hrem) as [Hs1 Hs2].
     unfold read_content. rewrite Hrem, (read_size body rest Hmax), Hs1.
     rewrite (is_nil_false body Hbody).
-    cbn [pv_truthy]. destruct (le_values_facts le Hv) as [_ [Hnle _]]. rewrite Hnle.
+    cbn [pv_given].
     assert (Hnl' : get_newline_for_type le match enc_pv enc encoding with Some (VStr s0) => Some s0 | _ => None end = Ok nlb).
     { destruct Henc as [Ha Hb0 | e He]; cbn [enc_pv]; [|exact N3].
       subst enc. unfold get_newline_for_type in *. cbn [enc_or_ascii] in *. exact N3. }
